@@ -28,8 +28,21 @@ CHECKS = {
  "C25": ("exploration", "7 C25", "Finite universe of JSON values (boundary numbers, escaped and non-ASCII strings, nesting to depth 3) x a catalogue of id mutations (listed with accept/reject counts in the evidence), enumerated completely; ids compared with an independent framing, verification verdicts with the accept-iff rule of the statement."),
  "C26": ("exploration", "7 C26", "The same finite universe enumerated completely: conversion, printing, parsing, accessors, navigation and (all ordered pairs of a sub-universe) equality compared with serde_json."),
 }
+E2B_NOTE = ("Trusted base: the scripted honest histories of mc/src/e2b.rs (victims) driven through the same host model as the explorer; the reference rules written out in the check (semver precedence on version pieces; size > limit); "
+            "the native build of the air crate stands in for the Wasm module; bounds: the version / limit grids listed in the evidence, six victim situations.")
+E2C_NOTE = ("Trusted base: serde_json navigation as the reference (JsonNav, mc/src/e2c.rs); values and scalar accessors reach the interpreter as call results of a one-peer script, the lens is observed through the argument of the next call request; "
+            "bounds: the finite value/path/accessor universe stated in the evidence rule (no sampling).")
+E2_TECH = "bounded-exhaustive enumeration of a finite input space through the real entry point (air::execute_air), each answer compared with a reference model"
+EXTRA = {
+ "C21": (E2B_NOTE, E2_TECH), "C22": (E2B_NOTE, E2_TECH), "C24": (E2C_NOTE, E2_TECH),
+}
 E2_NOTE = ("Trusted base: serde_json as the reference JSON implementation, sha2 and fluence-blake3 as hash functions, the 60-line reference CID framing in mc/src/e2.rs; "
            "bounds: the finite value universe and mutation catalogue of DESIGN.md 11.4 (no sampling; values outside the universe are not covered).")
+CHECKS.update({
+ "C21": ("exploration", "7 C21 and 11.8", "Every version of a grid straddling the minimal supported version (major x minor x patch x pre-release x build) written into the interpreter_version / data_version of the current data, of the previous data, and of an explicitly encoded empty data, for four victim situations: rejected with the unsupported-version code and previous data returned iff older by semver precedence, otherwise the outcome equals the honest run's field by field."),
+ "C22": ("exploration", "7 C22 and 11.8", "For six victim situations (script, previous data, current data, call results) every combination of the three limits from {0, size-1, size, size+1, 2^64-1} in hard and soft mode: hard mode rejects iff some size exceeds its limit, with an error naming an exceeded limit and the previous data returned; otherwise the outcome equals the unlimited run and the three flags equal size > limit exactly."),
+ "C24": ("exploration", "7 C24 and 11.8", "Every (value, path, scalar accessor) of a finite universe applied through the real interpreter on scalars, canonical streams and canonical maps and compared with plain JSON navigation: same value and same tetraplet lens, or a catchable error exactly when navigation is impossible. One known finding (absent map key followed by accessors) is listed in known_findings.json."),
+})
 NOT_BUILT = {
  "C01": "no check claimed: the fault-enumeration sweep (isolated worker, JSON-tree tamper pipeline) designed in DESIGN.md 7 C01 was not built in the time available; the six crash sites reproduced by hand in the design phase are described there",
  "C14": "no check claimed: the tamper catalogue of DESIGN.md 7 C14 was not built in the time available",
@@ -53,8 +66,8 @@ for pid, (cat, ref, text) in CHECKS.items():
         "replay_cmd_template": f"bin/check {pid} --replay {{path}}",
         "engine": "mc",
         "level_claimed": {"category": cat, "text": text, "design_ref": f"DESIGN.md section {ref}"},
-        "level_note": E1_NOTE if cat == "model_checking" else E2_NOTE,
-        "technique": E1_TECH if cat == "model_checking" else "bounded-exhaustive enumeration of a finite input/fault space against a reference model",
+        "level_note": EXTRA[pid][0] if pid in EXTRA else (E1_NOTE if cat == "model_checking" else E2_NOTE),
+        "technique": EXTRA[pid][1] if pid in EXTRA else (E1_TECH if cat == "model_checking" else "bounded-exhaustive enumeration of a finite input/fault space against a reference model"),
     })
 na = [{"property_id": p['id'], "reason": NOT_BUILT[p['id']]} for p in props if p['id'] not in CHECKS]
 checks.sort(key=lambda c: c["property_id"])
